@@ -972,6 +972,63 @@ def r_py_fd_step(rep, f):
         rep.ok(key, key, "%d finite-difference Jacobians (%s) add the same increment to y[j]" % (len(fns), ", ".join(x.rsplit("::", 1)[-1] for x in fns)))
 
 
+def r_py_event_fresh(rep, f):
+    """SciPy reads `terminal` and `direction` per event function.  The binding collects one EventConfig per callable in a loop;
+    the value it pushes for a callable must be built from defaults inside that iteration - a configuration object that lives
+    across iterations and is only modified when an attribute is present hands the attributes of one event to all later ones.
+    Rule: in every loop of the binding that pushes a local into an output collection, that local is declared inside the loop
+    body (or unconditionally re-assigned at the top level of the body before its first other use)."""
+    n_push = 0
+    for b in f.body_list:
+        fn = b["def"]
+        if not fn.startswith("python::") or "::{closure" in fn:
+            continue
+        for lp in tast.find(b["body"], lambda z: z.get("k") == "For"):
+            body = lp["body"]
+            for c in tast.find(body, lambda z: z.get("k") == "MethodCall" and z.get("name") == "push" and len(z.get("args", [])) == 1):
+                a = c["args"][0]
+                while a.get("k") in ("DropTemps", "Paren"):
+                    a = a["e"]
+                if a.get("k") == "MethodCall" and a.get("name") == "clone" and a["recv"].get("k") in ("Path", "AddrOf"):
+                    a = a["recv"]["e"] if a["recv"].get("k") == "AddrOf" else a["recv"]
+                if a.get("k") != "Path" or a.get("res") != "local":
+                    continue
+                vid = a["id"]
+                # only accumulators: the local is modified somewhere in the loop body besides its initialisation
+                def mutates(z):
+                    if z.get("k") in ("Assign", "AssignOp") and tast.contains(z["l"], lambda q: q.get("k") == "Path" and q.get("id") == vid):
+                        return True
+                    if z.get("k") == "MethodCall" and z is not c:
+                        r_ = z["recv"]
+                        while r_.get("k") in ("AddrOf", "Field", "Deref"):
+                            r_ = r_["e"]
+                        # the receiver is borrowed mutably: automatically (adjustment M) or explicitly
+                        return r_.get("k") == "Path" and r_.get("id") == vid and (r_.get("adj") == "M" or (z["recv"].get("k") == "AddrOf" and bool(z["recv"].get("mut"))))
+                    return False
+                muts = tast.find(body, mutates)
+                if not muts:
+                    continue
+                n_push += 1
+                key = "R-PY-EVENT-FRESH:%s:%s" % (fn, a.get("name"))
+                declared_inside = tast.contains(body, lambda z: z.get("k") == "Let" and tast.contains(z["pat"], lambda q: q.get("k") == "PBind" and q.get("id") == vid))
+                stmts = body.get("stmts", []) if body.get("k") == "Block" else []
+                reset_first = False
+                for st in stmts:
+                    e_ = st.get("e") if st.get("k") in ("Semi", "Expr") else st
+                    if isinstance(e_, dict) and e_.get("k") == "Assign" and e_["l"].get("k") == "Path" and e_["l"].get("id") == vid:
+                        reset_first = True
+                        break
+                    if tast.contains(st, lambda q: q.get("k") == "Path" and q.get("id") == vid):
+                        break
+                if declared_inside or reset_first:
+                    rep.ok("R-PY-EVENT-FRESH", key, "`%s` is built anew in every iteration before it is modified and pushed" % a.get("name"))
+                else:
+                    rep.violation("R-PY-EVENT-FRESH", key, "`%s` is pushed once per item but lives across the iterations and is only modified conditionally: what one item set "
+                                  "(an event's terminal / direction attribute) is inherited by every later item" % a.get("name"), c.get("sp"))
+    if n_push < 1:
+        rep.inconc("R-PY-EVENT-FRESH", "R-PY-EVENT-FRESH:floor", "no per-item accumulator pushed in a loop of the binding was found (expected parse_events' EventConfig)")
+
+
 def run(rep, tier):
     f = facts.load("python")
     rep.rule("R-PY-OPTS", "dict key -> tuple slot of parse_options -> destructured binding -> Options builder setter agree by name; method/t_eval/dense_output reach their setters; one call to solve::solve_ivp")
@@ -997,6 +1054,8 @@ def run(rep, tier):
     r_py_sparsity_format(rep, f)
     rep.rule("R-PY-FD-STEP", "the dense and the sparsity-grouped finite-difference Jacobians of the binding and the Rust default IVP::jac add the same increment (as an expression of y[j]) to column j")
     r_py_fd_step(rep, f)
+    rep.rule("R-PY-EVENT-FRESH", "a per-item value pushed in a loop of the binding (parse_events' EventConfig) is built anew inside the iteration, so one event's terminal/direction attributes cannot leak into the next")
+    r_py_event_fresh(rep, f)
     # the statistics the binding copies are the ones C18 pairs with evaluations (python cfg compiles the same solvers)
     rep.explanation = ("Decides the binding's plumbing tables on the `--features python` build (type-checked without a Python interpreter): option routing, status mapping, array layout, argument passing, "
                        "extrapolating evaluation, method names. NOT decided: numerical equality with the Rust API as an execution through CPython, NumPy dtype conversions, "
